@@ -215,13 +215,20 @@ def _tree_job(args):
                             return False
                         _, lvl, mod, names = s
                         if lvl == 0:
-                            return mod == P and any(gone(P + "." + nmx) for nmx in names)
+                            # the written name resolves to P either as it stands or prefixed with module_path's parent (sub-directory scans)
+                            written = {mod, ".".join(mp[:-1] + (mod,))}
+                            return P in written and any(gone(P + "." + nmx) for nmx in names)
                         pkg = tuple(u.split("."))[:-1]
                         b = ".".join(pkg[:len(pkg) - lvl + 1])
                         return mod is not None and b + "." + mod == P and any(gone(P + "." + nmx) for nmx in names)
                     if any(explains(s) for s in body):
                         k2.append((u, P))
                         surplus.remove((u, P))
+                if (surplus or missing) and scan.has_ambiguous_imports(dirs, files, mp):
+                    # an import name readable both as root-qualified and as relative to module_path's parent may change its reading
+                    # when one of the two candidates is excluded: outside the claim (see DESIGN 11.4); model agreement is still checked below
+                    out["stats"]["ambiguous_import_names"] = out["stats"].get("ambiguous_import_names", 0) + 1
+                    surplus, missing, k2 = [], [], []
                 if surplus or missing:
                     out["violations"].append((dict(case, edges_surplus=surplus, edges_missing=missing),
                                               f"exclusions {rxs if raw_regex else globs}: imports between remaining modules differ from the scan without the pattern", {"kind": "excl_edges"}))
